@@ -21,6 +21,7 @@ import (
 	gnarklogger "github.com/consensys/gnark/logger"
 	sdk "github.com/cosmos/cosmos-sdk/types"
 
+	dakeeper "github.com/sunriselayer/sunrise/x/da/keeper"
 	datypes "github.com/sunriselayer/sunrise/x/da/types"
 	"github.com/sunriselayer/sunrise/x/da/zkp"
 
@@ -141,7 +142,8 @@ type itemPre struct {
 	Proofs []proofRec // the proofs in force: (validator the proof is FOR, indices)
 	Stored []proofRec // the records as stored: (id of the stored Sender address, indices)
 	Asg    [][]int64  // aligned with blockPre.Active
-	Thr    *uint64    // GetZkpThreshold, nil when it panicked
+	Thr    *uint64    // the keeper's GetZkpThreshold, nil when it failed or panicked
+	GThr   *uint64    // ghost: the protocol rule over x/staking's bonded set, computed by the harness
 	NInv   int
 	NCoins int
 }
@@ -227,6 +229,92 @@ func (w *world) threshold(ctx sdk.Context, n int) (thr *uint64) {
 	return &t
 }
 
+func optU64(x *uint64) string {
+	if x == nil {
+		return emit.None()
+	}
+	return emit.Some(u64(*x))
+}
+
+// ghostThreshold is the protocol rule for the number of shards every bonded validator is
+// assigned, min(max(ceil(replication_factor * shards / #bonded), 1), shards), in the module's
+// 18-decimal arithmetic (the quotient is truncated to 18 decimals before the ceiling). It is
+// computed here from the replication factor parameter and the bonded set read from x/staking,
+// never from the keeper's GetZkpThreshold; the Coq model recomputes it on every case.
+func ghostThreshold(rfRaw *big.Int, n int, bonded int) *uint64 {
+	if bonded == 0 {
+		return nil
+	}
+	one := new(big.Int).Exp(big.NewInt(10), big.NewInt(18), nil)
+	a := new(big.Int).Mul(rfRaw, big.NewInt(int64(n)))
+	b := new(big.Int).Quo(a, big.NewInt(int64(bonded)))
+	q, rem := new(big.Int).QuoRem(b, one, new(big.Int))
+	if rem.Sign() > 0 {
+		q.Add(q, big.NewInt(1))
+	}
+	t := uint64(n)
+	if q.Cmp(big.NewInt(int64(n))) < 0 {
+		t = 1
+		if q.Cmp(big.NewInt(1)) > 0 {
+			t = q.Uint64()
+		}
+	}
+	return &t
+}
+
+// ghostThr computes the ghost threshold for n shards on ctx.
+func (w *world) ghostThr(ctx sdk.Context, n int) *uint64 {
+	params, err := w.h.App.DaKeeper.Params.Get(ctx)
+	if err != nil {
+		panic(err)
+	}
+	ids, _ := w.activeVals(ctx)
+	return ghostThreshold(decRaw(params.ReplicationFactor), n, len(ids))
+}
+
+// queryCase asks Query/ZkpProofThreshold and Query/ValidatorShardIndices (for every bonded
+// validator) about an item of n shards and pairs the answers with the ghost values.
+func (w *world) queryCase(ctx sdk.Context, n int) (string, map[string]any) {
+	q := dakeeper.NewQueryServerImpl(w.h.App.DaKeeper)
+	g := w.ghostThr(ctx, n)
+	var qthr *uint64
+	func() {
+		defer func() { recover() }()
+		if r, err := q.ZkpProofThreshold(ctx, &datypes.QueryZkpProofThresholdRequest{ShardCount: uint64(n)}); err == nil {
+			t := r.Threshold
+			qthr = &t
+		}
+	}()
+	_, ops := w.activeVals(ctx)
+	var pairs []string
+	var shown []string
+	for _, op := range ops {
+		var got []int64
+		func() {
+			defer func() { recover() }()
+			if r, err := q.ValidatorShardIndices(ctx, &datypes.QueryValidatorShardIndicesRequest{ValidatorAddress: op.String(), ShardCount: uint64(n)}); err == nil {
+				for _, x := range r.ShardIndices {
+					got = append(got, int64(x))
+				}
+			}
+		}()
+		var want []int64
+		if g != nil {
+			want = datypes.ShardIndicesForValidator(op, int64(*g), int64(n))
+		}
+		pairs = append(pairs, emit.Tuple(zs(got), zs(want)))
+		shown = append(shown, fmt.Sprintf("v%d: query %v, protocol %v", w.idOf(op), got, want))
+	}
+	info := map[string]any{"kind": "queries", "shards": n, "bonded": len(ops), "indices": shown}
+	if qthr != nil {
+		info["query_threshold"] = *qthr
+	}
+	if g != nil {
+		info["protocol_threshold"] = *g
+	}
+	return fmt.Sprintf("CQuery %s %s %s", optU64(qthr), optU64(g), emit.List(pairs)), info
+}
+
 // readPre reads everything the model of one EndBlocker needs from the real keepers, on a
 // context that already carries the height and time of the block about to end.
 func (w *world) readPre(ctx sdk.Context) blockPre {
@@ -269,9 +357,11 @@ func (w *world) readPre(ctx sdk.Context) blockPre {
 		}
 		it.NInv = len(invs)
 		it.Thr = w.threshold(ctx, n)
-		if it.Thr != nil {
+		// the assignment a validator is held to is the protocol's: the real shuffle at the ghost threshold
+		it.GThr = ghostThreshold(p.RF, n, len(ops))
+		if it.GThr != nil {
 			for _, op := range ops {
-				it.Asg = append(it.Asg, datypes.ShardIndicesForValidator(op, int64(*it.Thr), int64(n)))
+				it.Asg = append(it.Asg, datypes.ShardIndicesForValidator(op, int64(*it.GThr), int64(n)))
 			}
 		} else {
 			for range ops {
@@ -446,7 +536,7 @@ func fcList(ids []int, fc map[int]uint64) string {
 }
 
 func (p blockPre) coq() string {
-	var items, thrs, stored []string
+	var items, thrs, gthrs, stored []string
 	for _, it := range p.Items {
 		var proofs, asg, st []string
 		for _, pr := range it.Stored {
@@ -461,11 +551,8 @@ func (p blockPre) coq() string {
 		}
 		items = append(items, fmt.Sprintf("{| it_n := %d; it_parity := %s; it_proofs := %s; it_asg := %s; it_ninv := %d; it_ncoins := %d |}",
 			it.N, u64(it.Parity), emit.List(proofs), emit.List(asg), it.NInv, it.NCoins))
-		if it.Thr == nil {
-			thrs = append(thrs, emit.None())
-		} else {
-			thrs = append(thrs, emit.Some(u64(*it.Thr)))
-		}
+		thrs = append(thrs, optU64(it.Thr))
+		gthrs = append(gthrs, optU64(it.GThr))
 	}
 	var vi []string
 	for _, id := range p.IDs {
@@ -473,8 +560,8 @@ func (p blockPre) coq() string {
 		vi = append(vi, emit.Tuple(emit.ZI(int64(id)),
 			fmt.Sprintf("{| vi_exists := %s; vi_jailed := %s; vi_bonded := %s |}", emit.Bool(v.Exists), emit.Bool(v.Jailed), emit.Bool(v.Bonded))))
 	}
-	return fmt.Sprintf("{| bp_rf := %s; bp_sft := %s; bp_epoch := %s; bp_active := %s; bp_ids := %s; bp_items := %s; bp_thr := %s; bp_stored := %s; bp_fc := %s; bp_cc := %s; bp_vinfo := %s |}",
-		emit.Z(p.RF), emit.Z(p.SFT), emit.Bool(p.Epoch), ints(p.Active), ints(p.IDs), emit.List(items), emit.List(thrs), emit.List(stored),
+	return fmt.Sprintf("{| bp_rf := %s; bp_sft := %s; bp_epoch := %s; bp_active := %s; bp_ids := %s; bp_items := %s; bp_thr := %s; bp_gthr := %s; bp_stored := %s; bp_fc := %s; bp_cc := %s; bp_vinfo := %s |}",
+		emit.Z(p.RF), emit.Z(p.SFT), emit.Bool(p.Epoch), ints(p.Active), ints(p.IDs), emit.List(items), emit.List(thrs), emit.List(gthrs), emit.List(stored),
 		fcList(p.IDs, p.FC), u64(p.CC), emit.List(vi))
 }
 
@@ -502,6 +589,11 @@ func (p blockPre) info() map[string]any {
 		}
 		m := map[string]any{"uri": it.URI, "shards": it.N, "parity": it.Parity, "proofs_for_validator": proofs, "stored_records": stored, "assigned": asg,
 			"invalidities": it.NInv, "collateral_coins": it.NCoins}
+		if it.GThr != nil {
+			m["protocol_threshold(ghost)"] = *it.GThr
+		} else {
+			m["protocol_threshold(ghost)"] = "undefined (nobody bonded)"
+		}
 		if it.Thr != nil {
 			m["zkp_threshold"] = *it.Thr
 		} else {
